@@ -9,12 +9,12 @@ CHECKS = {
    category="model_checking", design_ref="DESIGN.md §5 C03",
    technique="exhaustive enumeration of the decoder's input trie (all byte strings ≤2/3 bytes, structural-alphabet strings ≤4/6 with sound pruning, single/double mutation closure of valid encodings) executed on the real decoder and compared with an independent strict reference decoder",
    text="Every input in the bounded space is executed on the real dagcbor decoder in strict and relaxed mode; accept/reject must equal an independent reference decoder written from the property text and accepted values must read back equal. Bounded-exhaustive: the defect classes named in the property (a flag consulted for one major type only, a head boundary, a duplicate after a nested child) all have witnesses of ≤4 items.",
-   note="Trusted: the reference decoder mc/ref/refcbor.go; go-cid's cid.Cast for CID validity (used by both sides). Inputs longer than the stated bounds are reached only through the mutation closure of the value universe."),
+   note="Trusted: the reference decoder mc/ref/refcbor.go; go-cid's cid.Cast for CID validity (used by both sides). Inputs longer than the stated bounds are reached only through the mutation closure of the value universe. The mutation closure also edits a string's content together with its length (first/last byte dropped, a byte put in front or appended): under tag 42 the CID without, with two, with another prefix."),
  "C02": dict(
    category="model_checking", design_ref="DESIGN.md §5 C02",
    technique="bounded-exhaustive enumeration of values × every permutation of map insertion order × node implementations, each encoded by the real encoder and compared byte-for-byte with an independent canonical encoder, then decoded by the real and by a reference decoder",
    text="Every value of the bounded universe (all trees ≤4/5 nodes, every boundary scalar at every position, all permutations of key sets ≤4 incl. nested) is encoded by dagcbor in every implementation; bytes must equal the reference canonical encoding, EncodedLength must equal the byte count, and both decoders must return the value in canonical order.",
-   note="Trusted: reference encoder/decoder in mc/ref/refcbor.go. Values larger than the bound are represented only by head-boundary containers (23…65536 entries). Also: the root package's Encode/Decode convenience functions against the codec called directly (same bytes, same value, same verdict on trailing and truncated input, earlier results unchanged by later calls)."),
+   note="Trusted: reference encoder/decoder in mc/ref/refcbor.go. Values larger than the bound are represented only by head-boundary containers (23…65536 entries). Also: the root package's Encode/Decode convenience functions against the codec called directly (same bytes, same value, same verdict on trailing and truncated input, earlier results unchanged by later calls). Bytes values are also held by basicnode's reader-backed bytes nodes (read several times per check)."),
  "C04": dict(
    category="model_checking", design_ref="DESIGN.md §5 C04",
    technique="bounded-exhaustive enumeration of in-domain values × all insertion orders × implementations; output checked by an independent DAG-JSON reader on the standard library tokenizer, by the real decoder, and for determinism",
@@ -29,7 +29,7 @@ CHECKS = {
    category="fault_enumeration", design_ref="DESIGN.md §5 C06", engine="fault",
    technique="exhaustive single-fault enumeration on the storage seam: every bit flip, truncation, extension, substitution, read error offset and chunking of every block × 4 load functions; every failing Write call, accessor failure, opener and commit error on Store",
    text="For each stored block every listed corruption/fault is injected through the real StorageReadOpener/WriteOpener seam; a non-error return must imply the served bytes hash to the link, mismatches must win over decode errors, I/O errors must surface, and Store must never commit after a failed write or encode.",
-   note="Trusted: the harness's recomputation of the hash of served bytes. A reader returning (0,nil) is checked for safety only, not availability."),
+   note="Trusted: the harness's recomputation of the hash of served bytes. A reader returning (0,nil) is checked for safety only, not availability. Every content-changing fault is also run with another load through the same link system nested into the first, second and third read call (two operations overlapping in time, deterministically)."),
  "C07": dict(
    category="model_checking", design_ref="DESIGN.md §5 C07",
    technique="bounded-exhaustive enumeration of selector ASTs (≤3/4 clauses + targeted union/recursion families) × block graphs (≤4/5 nodes, every cut into blocks, dangling/shared links), each walked by the real WalkAdv/WalkMatching and compared with an independent substitution-style reference denotation",
@@ -39,7 +39,7 @@ CHECKS = {
    category="model_checking", design_ref="DESIGN.md §5 C14",
    technique="exhaustive enumeration of graphs × every visit of every walk, every node position, every path ≤3 segments over a 10-segment alphabet, every segment string ≤3 bytes; Get/Focus/stepwise lookup on the real code vs a reference resolver",
    text="For every visit of every enumerated walk (and WalkLocal) the reported path, as reported and re-parsed, must resolve through Get, Focus and segment-by-segment lookup (loading links) to the visited node; every position's own path resolves in string, int and parsed form; every short path succeeds exactly when the reference resolver finds it; String/ParsePath round-trips every clean segment sequence.",
-   note="Trusted: reference resolver trav.Resolve. Non-canonical numerals on lists are unspecified (agreement only). Also: comb graphs to depth 6/18 whose visit paths are resolved after the walk; every program of Path operations to depth 4/5 (append-only 6/8) with every live path re-checked after every step; typed nodes (reflection binding, both views) as walk roots. Also: escape-looking segments and keys (~0 ~1 %2F backslash . .. ? #); package-level traversal.Get/Focus on link-free graphs. Selector walks are repeated with LinkVisitOnlyOnce on graphs with two or more links."),
+   note="Trusted: reference resolver trav.Resolve. Non-canonical numerals on lists are unspecified (agreement only). Also: comb graphs to depth 6/18 whose visit paths are resolved after the walk; every program of Path operations to depth 4/5 (append-only 6/8) with every live path re-checked after every step; typed nodes (reflection binding, both views) as walk roots. Also: escape-looking segments and keys (~0 ~1 %2F backslash . .. ? #); package-level traversal.Get/Focus on link-free graphs. Selector walks are repeated with LinkVisitOnlyOnce on graphs with two or more links. Typed walks must visit exactly the positions the schema names (map entries by the key's representation string)."),
  "C15": dict(
    category="model_checking", design_ref="DESIGN.md §5 C15",
    technique="exhaustive enumeration of every setting of each traversal control (node budget 0..|U|+1, link budget 0..|L|+1, start-at every visited path, visit-once, every skip set ≤2/3) for every (graph, selector) pair, compared with the prefix/suffix/subsequence of the unrestricted real walk",
@@ -69,7 +69,7 @@ CHECKS = {
    category="model_checking", design_ref="DESIGN.md §5 C17", engine="bfs",
    technique="explicit-state search over put/get histories on the real stores (state = keys stored [+ last operation], to fixpoint) for pairs of adversarial keys against a Go map, with every filesystem path of fsstore logged through an import-rewritten os shim and checked for containment",
    text="Every pair of adversarial keys is forced through each store; after every step of every explored history both keys and a never-put key are audited against the map model (Has/Get/GetStream/Peek, through methods and storage.* fallbacks), caller and returned buffers are mutated, and for fsstore every path of every filesystem call must lie under the base directory with sibling files untouched.",
-   note="fsstore is built from the working tree with its os/crypto-rand imports rewritten to shims by `go build -overlay`; /repo is not modified. One content per key; Has may answer with an error for a name the filesystem cannot hold. cidlink.Memory is exercised through link systems in C05."),
+   note="fsstore is built from the working tree with its os/crypto-rand imports rewritten to shims by `go build -overlay`; /repo is not modified. One content per key; Has may answer with an error for a name the filesystem cannot hold. cidlink.Memory is exercised through link systems in C05. Put-vec with one, two and three segments (an empty one in the middle)."),
  "C18": dict(
    category="fault_enumeration", design_ref="DESIGN.md §5 C18", engine="fault",
    technique="exhaustive crash-point and single/double fault enumeration over every filesystem call of 10–14 write histories on the real fsstore (process death before/after each call, torn writes, six errno answers), recovery by a new process, plus stateless exploration of all interleavings of 2–3 threads at filesystem-call granularity up to a preemption bound under a cooperative scheduler",
